@@ -204,9 +204,35 @@ package decimal
 //@ define gapok(x, y) = (x.exp - 19*len(x.mant)) - (y.exp - 19*len(y.mant)) <= 1000000000 && (y.exp - 19*len(y.mant)) - (x.exp - 19*len(x.mant)) <= 1000000000 && len(x.mant) <= 20000000 && len(y.mant) <= 20000000
 //@ define scalars_unchanged(x) = x.exp == old(x.exp) && x.prec == old(x.prec) && x.mode == old(x.mode) && x.acc == old(x.acc) && x.form == old(x.form) && x.neg == old(x.neg) && x.mant == old(x.mant)
 
+// Exact sum / difference of two finite magnitudes as an integer at the smaller scale:
+// |x| = V(x.mant)*10^qexp(x).
+//@ define qexp(x) = x.exp - 19*len(x.mant)
+//@ define addq(x, y) = (qexp(x) <= qexp(y) ? qexp(x) : qexp(y))
+//@ define addsum(x, y) = (qexp(x) <= qexp(y) ? V(x.mant) + V(y.mant)*p10(qexp(y) - qexp(x)) : V(x.mant)*p10(qexp(x) - qexp(y)) + V(y.mant))
+//@ define addmag(x, y, same) = (same ? addsum(x, y) : (absgt(x, y) ? subdiff(x, y) : subdiff(y, x)))
+//@ define subdiff(x, y) = (qexp(x) <= qexp(y) ? V(x.mant) - V(y.mant)*p10(qexp(y) - qexp(x)) : V(x.mant)*p10(qexp(x) - qexp(y)) - V(y.mant))
+
+// uadd: with S the exact integer sum at scale 10^q, gL its word count and gs its number of
+// leading zero digits, the receiver is S*10^gs as a gL-word mantissa with exponent
+// q + 19*gL - gs, rounded once.
 //@ func (z *Decimal) uadd(x, y *Decimal)
 //@   requires[wf]    z != nil && z.prec >= 1 && z.mode <= 5 && finop_long(x) && finop_long(y) && sep(z, x) && sep(z, y) && gapok(x, y)
 //@   modifies z.acc, z.exp, z.form, z.mant, memcap(z.mant)
+//@   ghost gL, gs
+//@   ensures[norm,C01] 0 <= gs && gs <= 18 && gL >= 1 && P(gL) <= 10*(old(addsum(x, y))*p10(gs)) && old(addsum(x, y))*p10(gs) < P(gL)
+//@   ensures[value,C01,C02] roundspec(z, old(addsum(x, y))*p10(gs), gL, old(addq(x, y)) + 19*gL - gs, false)
+//@   hint[after:add#1] assert(V(result) == old(addsum(x, y)))
+//@   hint[after:add#2] assert(V(result) == old(addsum(x, y)))
+//@   hint[after:add#3] assert(V(result) == old(addsum(x, y)))
+//@   hint[after:add#4] assert(V(result) == old(addsum(x, y)))
+//@   hint[after:add#5] assert(V(result) == old(addsum(x, y)))
+//@   hint[after:dnorm#1] bind(gs, result)
+//@   hint[after:dnorm#1] bind(gL, len(z.mant))
+//@   hint[after:dnorm#1] V_top(z.mant, 0, len(z.mant))
+//@   hint[after:dnorm#1] V_bounds(z.mant, 0, len(z.mant))
+//@   hint[after:dnorm#1] mul_mono(B/10, z.mant[len(z.mant)-1], P(len(z.mant)-1))
+//@   hint[after:dnorm#1] Pdef(len(z.mant)-1)
+//@   hint[after:dnorm#1] assert(V(z.mant) == old(addsum(x, y))*p10(result))
 //@   ensures[form,C08] (z.form == finite || z.form == zero || z.form == inf) && 0 - 1 <= z.acc && z.acc <= 1
 //@   ensures[underflow,C02,C04] z.form == zero ==> z.acc != 0
 //@   ensures[shape,C08] z.form == finite ==> mantok(z) && 19*len(z.mant) < z.prec + 19 && (19*len(z.mant) > z.prec ==> z.mant[0] % p10(19*len(z.mant) - z.prec) == 0)
@@ -240,6 +266,21 @@ package decimal
 //@   ensures[buffer,C18] (z.mant.arr == old(z.mant.arr) && z.mant.off == old(z.mant.off) && cap(z.mant) == old(cap(z.mant))) || fresh(z.mant)
 //@   ensures[cancel,C01,C02,C04] old(abseq(x, y)) ==> z.form == zero && z.acc == 0 && z.neg == false
 //@   ensures[neg,C01] !old(abseq(x, y)) ==> z.neg == old(z.neg)
+//@   ghost gL, gs
+//@   ensures[norm,C01] !old(abseq(x, y)) ==> 0 <= gs && gs <= 18 && gL >= 1 && P(gL) <= 10*(old(subdiff(x, y))*p10(gs)) && old(subdiff(x, y))*p10(gs) < P(gL)
+//@   ensures[value,C01,C02] !old(abseq(x, y)) ==> roundspec(z, old(subdiff(x, y))*p10(gs), gL, old(addq(x, y)) + 19*gL - gs, false)
+//@   hint[after:sub#1] assert(V(result) == old(subdiff(x, y)))
+//@   hint[after:sub#2] assert(V(result) == old(subdiff(x, y)))
+//@   hint[after:sub#3] assert(V(result) == old(subdiff(x, y)))
+//@   hint[after:sub#4] assert(V(result) == old(subdiff(x, y)))
+//@   hint[after:sub#5] assert(V(result) == old(subdiff(x, y)))
+//@   hint[after:dnorm#1] bind(gs, result)
+//@   hint[after:dnorm#1] bind(gL, len(z.mant))
+//@   hint[after:dnorm#1] V_top(z.mant, 0, len(z.mant))
+//@   hint[after:dnorm#1] V_bounds(z.mant, 0, len(z.mant))
+//@   hint[after:dnorm#1] mul_mono(B/10, z.mant[len(z.mant)-1], P(len(z.mant)-1))
+//@   hint[after:dnorm#1] Pdef(len(z.mant)-1)
+//@   hint[after:dnorm#1] assert(V(z.mant) == old(subdiff(x, y))*p10(result))
 //@   hint[after:shl#1] V_nonneg(result, 0, len(result))
 //@   hint[after:shl#2] V_nonneg(result, 0, len(result))
 //@   hint[after:shl#3] V_nonneg(result, 0, len(result))
@@ -535,6 +576,17 @@ package decimal
 //@        (old(x.neg) != old(y.neg) && old(absgt(x, y)) ==> z.neg == old(x.neg)) &&
 //@        (old(x.neg) != old(y.neg) && old(absgt(y, x)) ==> z.neg == old(y.neg)) &&
 //@        (old(x.neg) != old(y.neg) && old(abseq(x, y)) ==> z.form == zero && z.acc == 0 && (z.neg <==> z.mode == ToNegativeInf))
+//@   ghost gL, gs
+//@   ensures[norm,C01] old(x.form) == finite && old(y.form) == finite && !(old(x.neg) != old(y.neg) && old(abseq(x, y))) ==>
+//@        0 <= gs && gs <= 18 && gL >= 1 && P(gL) <= 10*(old(addmag(x, y, x.neg == y.neg))*p10(gs)) && old(addmag(x, y, x.neg == y.neg))*p10(gs) < P(gL)
+//@   ensures[value,C01,C02] old(x.form) == finite && old(y.form) == finite && !(old(x.neg) != old(y.neg) && old(abseq(x, y))) ==>
+//@        roundspec(z, old(addmag(x, y, x.neg == y.neg))*p10(gs), gL, old(addq(x, y)) + 19*gL - gs, false)
+//@   hint[after:uadd#1] bind(gL, ghost_gL)
+//@   hint[after:uadd#1] bind(gs, ghost_gs)
+//@   hint[after:usub#1] bind(gL, ghost_gL)
+//@   hint[after:usub#1] bind(gs, ghost_gs)
+//@   hint[after:usub#2] bind(gL, ghost_gL)
+//@   hint[after:usub#2] bind(gs, ghost_gs)
 //@   panics[nan,C04] old(x.form) == inf && old(y.form) == inf && old(x.neg) != old(y.neg)
 //@   onpanic[valid,C04,C08] valid(z)
 
@@ -559,6 +611,17 @@ package decimal
 //@        (old(x.neg) == old(y.neg) && old(absgt(x, y)) ==> z.neg == old(x.neg)) &&
 //@        (old(x.neg) == old(y.neg) && old(absgt(y, x)) ==> z.neg == !old(y.neg)) &&
 //@        (old(x.neg) == old(y.neg) && old(abseq(x, y)) ==> z.form == zero && z.acc == 0 && (z.neg <==> z.mode == ToNegativeInf))
+//@   ghost gL, gs
+//@   ensures[norm,C01] old(x.form) == finite && old(y.form) == finite && !(old(x.neg) == old(y.neg) && old(abseq(x, y))) ==>
+//@        0 <= gs && gs <= 18 && gL >= 1 && P(gL) <= 10*(old(addmag(x, y, x.neg != y.neg))*p10(gs)) && old(addmag(x, y, x.neg != y.neg))*p10(gs) < P(gL)
+//@   ensures[value,C01,C02] old(x.form) == finite && old(y.form) == finite && !(old(x.neg) == old(y.neg) && old(abseq(x, y))) ==>
+//@        roundspec(z, old(addmag(x, y, x.neg != y.neg))*p10(gs), gL, old(addq(x, y)) + 19*gL - gs, false)
+//@   hint[after:uadd#1] bind(gL, ghost_gL)
+//@   hint[after:uadd#1] bind(gs, ghost_gs)
+//@   hint[after:usub#1] bind(gL, ghost_gL)
+//@   hint[after:usub#1] bind(gs, ghost_gs)
+//@   hint[after:usub#2] bind(gL, ghost_gL)
+//@   hint[after:usub#2] bind(gs, ghost_gs)
 //@   panics[nan,C04] old(x.form) == inf && old(y.form) == inf && old(x.neg) == old(y.neg)
 //@   onpanic[valid,C04,C08] valid(z)
 
